@@ -254,7 +254,7 @@ class Ctx:
 
     # -- obligations
     def prove(self, name, hyps, goal, replay=None, witness_terms=None, expect="unsat",
-              timeout_ms=None, kind="property", axioms=True, extra_axioms=()):
+              timeout_ms=None, kind="property", axioms=True, extra_axioms=(), replay_on_unknown=False):
         """One obligation: hyps + axioms(cone) + not goal  must be `expect`.
         replay(model_values: dict) -> (reproduced: bool, detail: dict) for unexpected sat."""
         full = "%s/%s" % (self.case, name)
@@ -274,6 +274,20 @@ class Ctx:
             if len(smt) < 200000:
                 self.smt_dumps.append((full, smt))
         if verdict == "unknown":
+            if replay_on_unknown and replay is not None and expect == "unsat":
+                # term-identity claims: the two sides are different terms and the solver cannot prove them equal.
+                # That alone is no verdict; a replay that shows the real results differ is a violation.
+                try:
+                    from . import npx
+                    with npx.real_code():
+                        ok, detail = replay(_ModelReader(None))
+                except Exception as e:
+                    ok, detail = False, dict(replay_error="%s: %s" % (type(e).__name__, e))
+                if ok:
+                    rec["replay"] = _jsonable(detail)
+                    rec["note"] = "solver verdict unknown on non-identical terms; violation established by the replay on the real code"
+                    self.violations.append(dict(obligation=full, witness={}, replay=_jsonable(detail), known=False))
+                    return verdict, None
             self.inconclusive.append(full)
             return verdict, None
         if verdict == expect:
@@ -388,6 +402,8 @@ class _ModelReader:
         self.m = m
 
     def __call__(self, t, as_float=True):
+        if self.m is None:
+            raise ValueError("no model (solver verdict was unknown)")
         import numpy
         if isinstance(t, numpy.ndarray):
             out = numpy.empty(t.shape, dtype=complex)
